@@ -360,6 +360,46 @@ func runC19(c *core.Ctx) {
 			outs = append(outs, n2)
 		}
 		compareEntries(c, "router-identity-ctors-vs-reader", in, sh, outs)
+		// the destination wrapper of a router identity against the destination reader, on inputs both
+		// readers accept (RedDSA is a destination type only): the same structure, the same bytes,
+		// hash and address
+		if rd.ok && rr.ok {
+			type view struct {
+				ser  []byte
+				hash [32]byte
+				b32  string
+			}
+			var a, b view
+			var aerr, berr error
+			c.Call("destination.ReadDestination", in, func() {
+				d, _, err := destination.ReadDestination(in)
+				if err != nil {
+					aerr = err
+					return
+				}
+				a.ser, aerr = d.Bytes()
+				if h, err := d.Hash(); err == nil {
+					a.hash = h
+				}
+				a.b32, _ = d.Base32Address()
+			})
+			c.Call("router_identity.RouterIdentity.AsDestination", in, func() {
+				ri, _, err := router_identity.ReadRouterIdentity(in)
+				if err != nil || ri == nil {
+					berr = fmt.Errorf("%v", err)
+					return
+				}
+				d := ri.AsDestination()
+				b.ser, berr = d.Bytes()
+				if h, err := d.Hash(); err == nil {
+					b.hash = h
+				}
+				b.b32, _ = d.Base32Address()
+			})
+			ea := entryOut{name: "destination.ReadDestination", ok: aerr == nil, ser: append(append(append([]byte{}, a.ser...), a.hash[:]...), a.b32...), err: aerr, whole: true}
+			eb := entryOut{name: "router_identity.ReadRouterIdentity.AsDestination", ok: berr == nil, ser: append(append(append([]byte{}, b.ser...), b.hash[:]...), b.b32...), err: berr, whole: true}
+			compareEntries(c, "destination-reader-vs-router-identity-wrapper", in, sh, []entryOut{ea, eb})
+		}
 	})
 
 	// key certificate: five ways to the same certificate
